@@ -7,6 +7,24 @@ TRUSTED = ("CPython's ast parser; the documented behaviour of struct, "
            "program; application subclasses / monkey-patching are outside the model")
 
 CLAIMS = {
+    "C01": dict(
+        text="Partial, structural: seven necessary conditions of faithful packet delivery are decided on "
+             "every path of Packetizer.send_message/read_message/read_all and Transport._activate_* "
+             "(direction discipline of all *_in/*_out fields, sequence numbers once per packet and "
+             "used before they advance, AEAD nonce function and single application, stage order with "
+             "stage-to-stage data flow, closed and well-formed algorithm tables, unpad inverts pad, "
+             "fragment reassembly). Byte-stream equality through cipher/zlib/socket is not decided.",
+        technique="per-mode pruned CFG dominance + reaching definitions + constant-folded tables (static, AST)",
+        note="necessary conditions only; cipher/zlib inverses trusted"),
+    "C02": dict(
+        text="Structural decision of 'no unauthenticated delivery': in each keyed reader mode (classic+MAC, "
+             "ETM, AEAD; the mode flags are fixed and infeasible CFG edges pruned) every path of "
+             "read_message to a delivered message passes the MAC comparison's equal arm or the AEAD "
+             "decrypt, the MAC covers seq||length||the very bytes delivered/decrypted, the comparator is "
+             "total and constant-time, and the analysed flag valuations are exactly those "
+             "_activate_inbound installs. All paths, not sampled tamperings.",
+        technique="flag-specialised CFG dominance, value-origin (reaching definitions), comparator shape check",
+        note="MAC/AEAD unforgeability is a cryptographic assumption"),
     "C03": dict(
         text="Exact decision over a finite abstract domain: the framing arithmetic "
              "of Packetizer._build_packet is interpreted from the current AST for every "
